@@ -594,7 +594,7 @@ func (res *PropResult) report(p *Program, cfg *PropConfig, tier string, writeBas
 		case "undecided":
 			// ordinals shift when code is edited: an obligation is claimed if the same clause of the
 			// same function (modulo ordinals) was discharged on the unchanged tree
-			if !inBase[s.Name] && !inBaseNorm[normOb(s.Name)] {
+			if !inBase[s.Name] && !inBaseNorm[normOb(s.Name)] && !strings.Contains(s.Name, "#frame.input") {
 				undecidedNew = append(undecidedNew, s.Name)
 				continue
 			}
@@ -607,7 +607,11 @@ func (res *PropResult) report(p *Program, cfg *PropConfig, tier string, writeBas
 		os.MkdirAll(replayDir, 0o755)
 		path := filepath.Join(replayDir, sanitize(s.Name)+".json")
 		reproduced := writeReplay(p, cfg.ID, s, path)
-		if !reproduced && !inBase[s.Name] && !inBaseNorm[normOb(s.Name)] {
+		// a store into the memory of an input parameter is the property itself (C04: "the caller's
+		// buffer is never modified") wherever the store sits, so a refuted #frame.input obligation is
+		// claimed even in code the baseline does not cover
+		universal := strings.Contains(s.Name, "#frame.input")
+		if !reproduced && !universal && !inBase[s.Name] && !inBaseNorm[normOb(s.Name)] {
 			// an obligation that was never discharged on the unchanged tree (new code, or a clause
 			// the engine never decided) and whose counterexample does not replay on the real code
 			// is undecided, not a violation
